@@ -325,7 +325,7 @@ def run(ctx):
             dspec = {"file_sr": 1017, "te": 1.0, "channels": 2, "n_frames": 515, "seed": 4242, "kind": "spectrogram", "window": 1024 / 1017, "hop": hop_frac * 1024 / 1017}
             ctx.case(("spectrogram", "directed", "window_longer_than_signal"), dspec)
             judge_spectrogram(ctx, dwav, dspec["window"], dspec["hop"], dspec)
-    n_files = ctx.scale(22, 30)
+    n_files = ctx.scale(22, 14)        # per shard; the thorough tier has 10 shards and a depth multiplier
     for fi in range(n_files):
         if fi < len(FILE_SRS):
             file_sr = FILE_SRS[fi]
@@ -355,7 +355,7 @@ def run(ctx):
         real_sr = int(round(file_sr * te))
         total = n_frames / real_sr
         # clips
-        for _ in range(ctx.scale(50, 80)):
+        for _ in range(ctx.scale(50, 40)):
             how = rng.choice(["aligned", "aligned", "free", "free", "zero", "subsample", "past_eof", "whole", "decimal"])
             if how == "aligned":
                 a = rng.randrange(0, n_frames); b = rng.randrange(a, n_frames + 1)
